@@ -25,6 +25,10 @@ namespace cdsv {
         unsigned prefill_max = 0;      // main pushes 0..prefill_max items before the round (recorded)
         size_t wgl_budget = 30000;
         bool phased = false;           // pq: push-only phase, barrier, pop-only phase
+        bool single_consumer = false;  // worker 0 draws from weight_consumer[], all other workers from weight[] (which must not contain pops)
+        unsigned weight_consumer[8] = { 0, 0, 0, 0, 0, 0, 0, 0 };
+        // if set, replaces the WGL check: returns "" when the history satisfies the (weaker) oracle, else the reason
+        std::function<std::string( std::vector<Op> const&, int64_t cap )> custom_check;
     };
 
     // Adapter concept:
@@ -46,19 +50,19 @@ namespace cdsv {
         uint64_t m_seed;
         std::vector<uint64_t> m_uidseq;
 
-        int pick_op( Rng& rng, unsigned mask_push_only, unsigned mask_pop_only, int phase )
+        int pick_op( Rng& rng, unsigned tid, unsigned mask_pop_only, int phase )
         {
             unsigned tot = 0;
             unsigned w[8];
             for ( int i = 0; i < 8; ++i ) {
-                w[i] = m_plan.weight[i];
+                w[i] = ( m_plan.single_consumer && tid == 0 ) ? m_plan.weight_consumer[i] : m_plan.weight[i];
                 if ( m_plan.phased ) {
                     bool is_push = m_plan.is_pq ? ( i == P_PUSH ) : ( i == S_PUSH_BACK || i == S_PUSH_FRONT );
                     if (( phase == 0 ) != is_push ) w[i] = 0;
                 }
                 tot += w[i];
             }
-            (void) mask_push_only; (void) mask_pop_only;
+            (void) mask_pop_only;
             if ( !tot ) return -1;
             unsigned x = rng.below( tot );
             for ( int i = 0; i < 8; ++i ) { if ( x < w[i] ) return i; x -= w[i]; }
@@ -98,7 +102,7 @@ namespace cdsv {
                 for ( int ph = 0; ph < phases; ++ph ) {
                     unsigned m = rng.range( m_plan.min_ops, m_plan.max_ops );
                     for ( unsigned i = 0; i < m; ++i ) {
-                        int op = pick_op( rng, 0, 0, ph );
+                        int op = pick_op( rng, tid, 0, ph );
                         if ( op >= 0 ) do_op( tid, op, rng, log );
                     }
                     if ( m_plan.phased && ph == 0 ) {
@@ -163,7 +167,14 @@ namespace cdsv {
                 std::vector<Op> h;
                 for ( auto& l : m_log ) h.insert( h.end(), l.begin(), l.end());
                 std::vector<int> lin;
-                Verdict v = wgl_check<Model>( h, init, m_plan.wgl_budget, m_ps.need_sample() ? &lin : nullptr );
+                std::string custom_why;
+                Verdict v;
+                if ( m_plan.custom_check ) {
+                    custom_why = m_plan.custom_check( h, init.cap );
+                    v = custom_why.empty() ? Verdict::ok : Verdict::violation;
+                }
+                else
+                    v = wgl_check<Model>( h, init, m_plan.wgl_budget, m_ps.need_sample() ? &lin : nullptr );
                 m_ps.evaluations.fetch_add( 1, std::memory_order_relaxed );
                 m_ps.operations.fetch_add( h.size(), std::memory_order_relaxed );
                 uint64_t ov = count_overlaps( h );
@@ -179,6 +190,8 @@ namespace cdsv {
                 }
                 t_exec += tb - ta; t_chk += wall_now() - tb;
                 std::string why = "history of round " + std::to_string( m_round ) + " is not linearizable to the sequential model (capacity " + std::to_string( init.cap ) + ")";
+                if ( !custom_why.empty())
+                    why = "history of round " + std::to_string( m_round ) + " violates the oracle (capacity " + std::to_string( init.cap ) + "): " + custom_why;
                 if ( v == Verdict::budget ) {
                     std::string r = Model::refute( h, init.cap );
                     if ( r.empty())
@@ -191,7 +204,7 @@ namespace cdsv {
                 if ( v == Verdict::violation ) {
                     ++nviol;
                     std::string js = history_json( h, m_plan.is_pq ? pq_opnames : seq_opnames );
-                    violation( m_plan.prop, "lin:" + m_plan.variant,
+                    violation( m_plan.prop, ( custom_why.empty() ? "lin:" : "oracle:" ) + m_plan.variant,
                                why,
                                "{\"variant\":" + jstr( m_plan.variant ) + ",\"round\":" + std::to_string( m_round ) + ",\"capacity\":" + std::to_string( init.cap ) + ",\"case\":" + js + "}" );
                 }
